@@ -178,6 +178,19 @@ func runC17(c *fw.Case) (o fw.Outcome) {
 				case 4: // IPv4-compatible and NAT64 prefixes
 					ip6 = net.IP(append(pick(r, []byte{0, 0, 0, 0, 0, 0, 0, 0, 0, 0, 0, 0}, []byte{0, 0x64, 0xff, 0x9b, 0, 0, 0, 0, 0, 0, 0, 0}), rbytes(r, 4)...))
 				}
+				if k := r.Intn(8); k == 0 { // one zero group at an edge, the other groups non-zero: see spell6
+					ip6 = net.IP(rbytes(r, 16))
+					for i := range ip6 {
+						ip6[i] |= 1
+					}
+					ip6[0], ip6[1] = 0, 0
+				} else if k == 1 {
+					ip6 = net.IP(rbytes(r, 16))
+					for i := range ip6 {
+						ip6[i] |= 1
+					}
+					ip6[14], ip6[15] = 0, 0
+				}
 				v6 = spell6(r, ip6)
 				if !net.ParseIP(v6).Equal(ip6) {
 					o.Inconcl("harness: spelling %q is not read back as %x", v6, []byte(ip6))
@@ -435,6 +448,21 @@ func spell6(r *rand.Rand, ip net.IP) string {
 		return strings.Join(p, ":")
 	}
 	dotted := fmt.Sprintf("%d.%d.%d.%d", ip[12], ip[13], ip[14], ip[15])
+	// "::" standing for exactly ONE zero group, the first or the last (legal to read, never printed by a formatter)
+	if ip[0] == 0 && ip[1] == 0 && r.Intn(2) == 0 {
+		var p []string
+		for i := 1; i < 8; i++ {
+			p = append(p, g(i, "%x"))
+		}
+		if s := "::" + strings.Join(p, ":"); net.ParseIP(s).Equal(ip) {
+			return s
+		}
+	}
+	if ip[14] == 0 && ip[15] == 0 && r.Intn(2) == 0 {
+		if s := join(7, "%x") + "::"; net.ParseIP(s).Equal(ip) {
+			return s
+		}
+	}
 	switch r.Intn(8) {
 	case 0:
 		return join(8, "%04x")
